@@ -92,6 +92,20 @@ static void (*make_stub(uint32_t id, int odd))(void *)
 	return (void (*)(void *)) c;
 }
 
+#if VP_TSAN
+/* The defer ring publishes its slots with cmm_smp_wmb()/cmm_smp_rmb(), which are compiler barriers
+ * on x86 and therefore invisible to ThreadSanitizer.  The hand-over of the *argument object* from the
+ * queuing thread to whichever thread runs the call is annotated here, so that TSan judges everything
+ * except the ring's own store order (which the exact-log / poison oracles of the plain builds judge). */
+extern void __tsan_acquire(void *);
+extern void __tsan_release(void *);
+#define HANDOVER_RELEASE(p) __tsan_release(p)
+#define HANDOVER_ACQUIRE(p) __tsan_acquire(p)
+#else
+#define HANDOVER_RELEASE(p) ((void) 0)
+#define HANDOVER_ACQUIRE(p) ((void) 0)
+#endif
+
 static void defer_common(void *p, uint32_t id)
 {
 	uint64_t ts = ts_after();
@@ -109,6 +123,7 @@ static void defer_common(void *p, uint32_t id)
 	}
 	if (k >= 6) {
 		struct obj *ob = p;
+		HANDOVER_ACQUIRE(p);
 		if (ob->state != ST_LIVE || ob->self != ob || ob->sum != osum(ob->id)) {
 			vp_violation("defer-invoked-twice-or-wrong-arg", "cfg=%s object stub got %p state=%llx", cfgname, p,
 				     (unsigned long long) ob->state);
@@ -265,6 +280,8 @@ static void *queuer_main(void *arg)
 		q->arg = a;
 		q->c = ts_before();
 		phase_of[w->idx] = "defer_rcu";
+		if (k >= 6)
+			HANDOVER_RELEASE(a);
 		defer_rcu(w->stub[k], a);
 		q->enq_ret = ts_after();
 		w->nq++;
@@ -346,6 +363,8 @@ static int confirm_stuck(char *buf, size_t len)
 }
 
 extern unsigned long vp_tun_defer_qsize;
+extern int vp_tun_bp_sleep_ms;
+extern unsigned int vp_tun_qs_attempts, vp_tun_wait_attempts;
 
 int main(int argc, char **argv)
 {
@@ -357,6 +376,9 @@ int main(int argc, char **argv)
 	reg_cycles_enabled = (int) vp_arg_long("reg-cycles", 1);
 	reclaimer_test = (int) vp_arg_long("reclaimer", 1);
 	queuer_registered = (int) vp_arg_long("queuer-registered", 0);
+	vp_tun_bp_sleep_ms = (int) vp_arg_long("tun-bp-sleep", 10);
+	vp_tun_qs_attempts = (unsigned) vp_arg_long("tun-qs", 100);
+	vp_tun_wait_attempts = (unsigned) vp_arg_long("tun-wait", 1000);
 	vp_tun_defer_qsize = (unsigned long) vp_arg_long("qsize", 4096);
 	double hookp = vp_arg_double("hook-prob", 0.05);
 	if (n_q > MAX_Q || n_readers > 16 || (vp_tun_defer_qsize & (vp_tun_defer_qsize - 1)) || vp_tun_defer_qsize < 8)
